@@ -10,7 +10,7 @@ from vlib import sh
 LEVEL = "proof"
 TRUSTED = [
     "Coq 8.16.1 kernel + vm_compute; theorems in coq/Props/C13.v",
-    "the primitive alias table is re-extracted from tooling/pkg/dsl/types.go on every run (Gen/Tables.v)",
+    "the primitive alias table is what the current front end resolves each candidate name to on a probe model, observed on every run (Gen/Tables.v), compared in Coq with the documented table",
     "Model/TypeSyntax.v: hand-written reading of convertType/applyTypeTail/itemCases and Unmarshal*YAML; tied on every run by the "
     "verif hook `types` (structure built by the real front end for random types in both spellings, compared inside Coq)",
     "the rest of the equivalence (comments, definition order, file layout, primitive aliases) is established by differential "
@@ -51,6 +51,7 @@ def run(ctx):
     quick = ctx.tier == "quick"
     rng = ctx.rng
     type_structures(ctx, 150 if quick else 1500)
+    every_alias(ctx)
     imported_generic_orders(ctx)
     for k in range(4 if quick else 24):
         ns = "Sp" + "abcdefghijklmnopqrstuvwxyz"[k % 26] + ("x" * (k // 26))
@@ -90,6 +91,46 @@ def run(ctx):
                 ctx.report("different-schema:" + style, "the '%s' spelling of a package changes the embedded schema of protocol(s) %s"
                            % (style, bad[:3]), dict(rep, protocols=bad, schema_original=base[3].get(bad[0]) if bad else None,
                                                     schema_respelled=sc.get(bad[0]) if bad else None))
+
+
+def every_alias(ctx):
+    """one package that uses EVERY documented primitive alias (scalar field, vector item, map key/value, enum base, union case,
+    stream step), spelled with the aliases and with the names the documentation says they stand for: same verdict, same code"""
+    pairs = sorted(ymodel.PRIM_ALIASES.items())
+    res = {}
+    for style in ("alias", "canonical"):
+        def nm(a):
+            return a if style == "alias" else ymodel.PRIM_ALIASES[a]
+        lines = ["R: !record", "  fields:"]
+        for a, _ in pairs:
+            lines += ["    s%s: %s" % (a.capitalize(), nm(a)), "    v%s: %s*" % (a.capitalize(), nm(a)), "    o%s: %s?" % (a.capitalize(), nm(a))]
+        for a, _ in pairs:
+            if a in ("byte", "int", "uint", "long", "ulong"):
+                lines += ["E%s: !enum" % a.capitalize(), "  base: %s" % nm(a), "  values:", "    - x", "    - y"]
+                lines += ["M%s: string->%s" % (a.capitalize(), nm(a))]
+        lines += ["P: !protocol", "  sequence:", "    r: R"]
+        for a, _ in pairs:
+            lines += ["    u%s: [%s, string]" % (a.capitalize(), nm(a)), "    t%s: !stream" % a.capitalize(), "      items: %s" % nm(a)]
+        d = os.path.join(ctx.scratch, "everyalias", style)
+        os.makedirs(d + "/model")
+        open(d + "/model/_package.yml", "w").write("namespace: Ea\n%s" % CFG)
+        open(d + "/model/model.yml", "w").write("\n".join(lines) + "\n")
+        rc, o, e = sh([ctx.yardl, "generate"], cwd=d + "/model", timeout=120)
+        res[style] = (rc, (o + e)[-600:], tree(d + "/out") if rc == 0 else {}, "\n".join(lines) + "\n")
+    a, c = res["alias"], res["canonical"]
+    ctx.case(("every-alias",), sample={"crafted": "every documented alias in every position", "accepted": [a[0] == 0, c[0] == 0],
+                                       "identical_tree": a[2] == c[2]})
+    rep = {"alias_spelling": a[3], "canonical_spelling": c[3]}
+    if c[0] != 0:
+        raise RuntimeError("yardl rejected the canonical spelling of the every-alias package: " + c[1])
+    if a[0] != 0:
+        ctx.report("rejected-spelling:every-alias", "yardl accepts a package spelled with canonical primitive names but rejects the "
+                   "same package spelled with the documented aliases: %s" % a[1][-300:], dict(rep, output=a[1]))
+    elif a[2] != c[2]:
+        diff = sorted(f for f in set(a[2]) | set(c[2]) if a[2].get(f) != c[2].get(f))
+        ctx.report("different-code:every-alias", "a package spelled with the documented primitive aliases generates different code "
+                   "from the same package spelled with the names they stand for (%d files differ: %s)" % (len(diff), diff[:4]),
+                   dict(rep, files_differ=diff[:20]))
 
 
 def type_structures(ctx, n):
